@@ -207,6 +207,23 @@ func (r *c11run) checkPatch(p result.Patch, what string) (checked int) {
 			if targetUpperBounded(w, u.Name) {
 				feat = strings.TrimSuffix("target-upper-bounded+"+feat, "+")
 			}
+			// In the ORIGINAL graph the package does not stand at a version that any vulnerability
+			// this patch fixes affects: the requirement change was decided on an intermediate
+			// graph of a multi-round override attempt (known finding R-F11) and kept although
+			// a later round made it pointless.
+			if w.Sys == "maven" && len(p.Fixed) > 0 && len(p.PackageUpdates) > 1 {
+				hit := false
+				for _, fx := range p.Fixed {
+					for i := range w.Vulns {
+						if w.Vulns[i].ID == fx.ID && w.Vulns[i].affects(u.Name, v0) {
+							hit = true
+						}
+					}
+				}
+				if !hit {
+					feat = strings.TrimSuffix("decided-on-intermediate-graph+"+feat, "+")
+				}
+			}
 			r.out.Violate("not-upward", fmt.Sprintf("not-upward:%s:%s:%s", w.Sys, what, feat), "%s patch %s: %s resolves to %s without the change (to %s without the patch) and to %s with it: not strictly upward; %s", what, patchString(p), u.Name, va, v0, vb, r.ctx)
 		case !in1 && !in2:
 			r.out.Violate("level-exceeded", fmt.Sprintf("level-exceeded:%s:%s:%s:%s", w.Sys, what, lvl, feat), "%s patch %s: %s moves from %s (without the change; %s without the patch) to %s, more than its level %s allows; %s", what, patchString(p), u.Name, va, v0, vb, lvl, r.ctx)
@@ -447,6 +464,12 @@ func (r *c11run) checkApplied(changes []change) {
 		}
 		r.out.Count("disk_changes_not_reported", 1)
 		feat := features(w, append([]result.PackageUpdate{{Name: c.Name, VersionFrom: "0"}}, c.Related...))
+		if len(c.Related) == 0 {
+			// no update was reported for this artifact at all: collateral damage of another
+			// artifact's property rewrite (known finding R-F8), named so that its regex covers it;
+			// with a reported update that disagrees with the disk the trait keeps its own name
+			feat = strings.ReplaceAll(feat, "property-shared-with-profile", "shared-property-with-profile")
+		}
 		where := fmt.Sprintf("requirement %s changed on disk from %q to %q, which no reported update says (related reported updates: %v)", c.Key, c.Old, c.New, updStrings(c.Related))
 		lvl := w.Opts.level(c.Name)
 		if lvl == "none" {
